@@ -1428,6 +1428,8 @@ class Interp:
                 for _ in range(int(q) % 4):
                     c, s = -s, c
                 continue
+            if vname.startswith("WRAP") and isinstance(coef, int):
+                continue  # an integer multiple of 2*pi introduced by an earlier wrap (marker analysis)
             if vname not in poly.R.angles or not isinstance(coef, int):
                 raise self.unsupported("cos/sin of %s which is not an integer combination of angle variables" % p.short(60), node)
             ca, sa = poly.R.angles[vname]
